@@ -24,13 +24,23 @@ pub struct RunReport {
 }
 
 impl RunReport {
+    /// counters add up; names starting with "max_" keep the maximum
     pub fn probe(&mut self, name: &str, n: u64) {
-        *self.probes.entry(name.to_string()).or_insert(0) += n;
+        merge_probe(&mut self.probes, name, n);
     }
     pub fn fire(&mut self, fired: &BTreeMap<&'static str, u64>) {
         for (k, v) in fired {
             *self.fired.entry(k.to_string()).or_insert(0) += *v;
         }
+    }
+}
+
+pub fn merge_probe(m: &mut BTreeMap<String, u64>, name: &str, n: u64) {
+    let e = m.entry(name.to_string()).or_insert(0);
+    if name.starts_with("max_") {
+        *e = (*e).max(n);
+    } else {
+        *e += n;
     }
 }
 
@@ -77,6 +87,7 @@ pub trait Property: Sync {
 pub fn all() -> Vec<Box<dyn Property>> {
     vec![
         Box::new(crate::props::c07::C07),
+        Box::new(crate::props::c09::C09),
         Box::new(crate::props::c19::C19),
         Box::new(crate::props::c20::C20),
     ]
